@@ -65,6 +65,9 @@ pub fn reg_bits_of(name: &str) -> Option<u32> {
         "__m128" | "__m128d" | "__m128i" => 128,
         "__m256" | "__m256d" | "__m256i" => 256,
         "__m512" | "__m512d" | "__m512i" => 512,
+        // aarch64 NEON quad registers
+        "float32x4_t" | "float64x2_t" | "int8x16_t" | "int16x8_t" | "int32x4_t" | "int64x2_t" | "uint8x16_t"
+        | "uint16x8_t" | "uint32x4_t" | "uint64x2_t" => 128,
         _ => return None,
     })
 }
